@@ -1,12 +1,94 @@
+import Std.Data.HashMap
 import MidnightZK.Model.Common
-/-! Line-protocol handler of property C16 (stub: answers `unimplemented`). -/
-namespace MidnightZK.C16.Driver
+import MidnightZK.Model.C16.Points
+import MidnightZK.Model.C16.Arch
+import MidnightZK.Model.C16.VK
+/-!
+Line-protocol handler of property C16.
 
-def answer (_line : String) : String := "unimplemented"
+State: a memo table of G1 point decodings. Every `g1` request is answered by `decodeG1` and
+remembered; `mvk`/`vk` requests run the pure model `decodeMVKWith`/`decodeVKWith` with a point
+decoder that looks a chunk up in the table first and otherwise calls `decodeG1` — extensionally
+the same function, it only avoids recomputing the subgroup check of chunks seen before.
+-/
+namespace MidnightZK.C16.Driver
+open MidnightZK MidnightZK.C16 MidnightZK.C16.Gen
+
+abbrev Cache := Std.HashMap (Bool × Bytes) (Except Err G1Pt)
+
+def fmtOf? : String → Option Fmt
+  | "p" => some .processed
+  | "r" => some .rawBytes
+  | _ => none
+
+def renderE {α} (f : α → String) : Except Err α → String
+  | .ok a => "ok " ++ f a
+  | .error e => "err " ++ toString e
+
+def cachedDec (c : Cache) (f : Fmt) (a : Bytes) : Except Err G1Pt :=
+  match c.get? (f == .processed, a) with
+  | some r => r
+  | none => decodeG1 f a
+
+def renderVK (vk : VKey G1Pt) : String :=
+  s!"k={vk.k} nf={vk.fixed.length} np={vk.perm.length} dg={digestPts (vk.fixed ++ vk.perm)}"
+
+def step (c : Cache) (line : String) : Cache × String :=
+  match words line with
+  | ["fq", kind, hex] =>
+    (c, match parseHexBytes? hex with
+    | none => "bad-op"
+    | some bs =>
+      if kind = "repr" then renderE toHex (decodeFqRepr bs)
+      else if kind = "raw" then renderE toHex (decodeFqRaw bs)
+      else "bad-op")
+  | ["g1", f, hex] =>
+    match fmtOf? f, parseHexBytes? hex with
+    | some f, some bs =>
+      let r := cachedDec c f bs
+      (c.insert (f == .processed, bs) r, renderE G1Pt.render r)
+    | _, _ => (c, "bad-op")
+  | ["g2", f, hex] =>
+    (c, match fmtOf? f, parseHexBytes? hex with
+    | some f, some bs => renderE G2Pt.render (decodeG2 f bs)
+    | _, _ => "bad-op")
+  | ["vparams", f, hex] =>
+    (c, match fmtOf? f, parseHexBytes? hex with
+    | some f, some bs => renderE (fun (p, r) => s!"{G2Pt.render p} rest={r.length}") (decodeVerifierParams f bs)
+    | _, _ => "bad-op")
+  | ["arch", consts, hex] =>
+    (c, match parseNatList? consts, parseHexBytes? hex with
+    | some cl, some bs =>
+      renderE (fun (a, r) => s!"{a.render} rest={r.length}") (decodeArch (ColConsts.ofList cl) bs)
+    | _, _ => "bad-op")
+  | ["archcols", consts, bits, nr] =>
+    (c, match parseNatList? consts, nr.toNat? with
+    | some cl, some nr =>
+      if bits.length ≠ 11 ∨ bits.toList.any (fun ch => ch ≠ '0' ∧ ch ≠ '1') then "bad-op" else
+      let a := Arch.ofBools (bits.toList.map (· == '1')) nr
+      let cc := ColConsts.ofList cl
+      s!"{nbAdviceCols cc a} {nbFixedCols cc a}"
+    | _, _ => "bad-op")
+  | ["vk", f, nf, np, deg, hex] =>
+    (c, match fmtOf? f, nf.toNat?, np.toNat?, deg.toNat?, parseHexBytes? hex with
+    | some f, some nf, some np, some deg, some bs =>
+      renderE (fun (vk, r) => s!"{renderVK vk} rest={r.length}")
+        (decodeVKWith (cachedDec c f) f.g1Size ⟨nf, np, deg⟩ bs)
+    | _, _, _, _, _ => "bad-op")
+  | ["mvk", f, nf, np, deg, consts, hex] =>
+    (c, match fmtOf? f, nf.toNat?, np.toNat?, deg.toNat?, parseNatList? consts, parseHexBytes? hex with
+    | some f, some nf, some np, some deg, some cl, some bs =>
+      renderE (fun (m, r) => s!"{m.arch.render} mb={m.maxBitLen} pi={m.nbPublicInputs} {renderVK m.vk} rest={r.length}")
+        (decodeMVKWith (cachedDec c f) f.g1Size (ColConsts.ofList cl) (fun _ => ⟨nf, np, deg⟩) bs)
+    | _, _, _, _, _, _ => "bad-op")
+  | _ => (c, "bad-op")
+
+/-- Stateless entry point (fresh memo table). -/
+def answer (line : String) : String := (step {} line).2
 
 end MidnightZK.C16.Driver
 
 /-- `mzk-c16 < ops.txt > model.txt` : one answer line per request line. -/
 def main : IO UInt32 := do
-  MidnightZK.lineLoop (← IO.getStdin) (← IO.getStdout) MidnightZK.C16.Driver.answer
+  MidnightZK.lineLoopSt (← IO.getStdin) (← IO.getStdout) MidnightZK.C16.Driver.step {}
   return 0
